@@ -187,7 +187,6 @@ def _variant_accepts(ev):       # an encoding the real code rejected, presented 
 
 PLAN = dict(
     id="C08",
-    keep_work=True,
     level="fault_enumeration",
     build=["c08"],
     mc=[dict(module="MC_Untrusted", cfg_quick="MC_Untrusted_quick.cfg", cfg_thorough="MC_Untrusted.cfg", workers=4,
@@ -220,7 +219,7 @@ PLAN = dict(
                "VariantMetadata::try_new with full traversal: acceptance must imply validity and the decoded value must be the specified one.",
     level_note="The quantifier 'all byte strings' is sampled (exhaustive only over the Variant universes and, in the thorough tier, over "
                "every single-byte position x {00, FF, ^01, ^80} and every truncation length of every base file). Time and allocation "
-               "bounds are observations of the harness (5 s CPU per session, 128 MiB + 64 x input size), not something TLC proves. "
+               "bounds are observations of the harness (4 s CPU per session, 16 MiB + 64 x input size), not something TLC proves. "
                "Batches too large to dump are only checked by the crate's own validate_full (recorded as an observation).",
     technique="TLA+ outcome protocol + structural corruption planner (TLC-enumerated plans replayed into the real readers), TLA+ validators "
               "(ArrowLayout, VariantFormat) as oracle, TLC model checking of the validators' laws, TLC trace validation of every session",
